@@ -269,6 +269,11 @@ class Shadow:
             if kind == "register": self.reg_futs.append(j)
         return self.next_id, j
 
+    def rejoin(self):
+        """the session object joins anew (next life): ids start again, nothing of the old session is pending"""
+        self.next_id = 0
+        self.pending, self.answered = [], []
+
     def take_key(self, kind, rid):
         for p in list(self.pending):
             if p[0] == kind and p[1] == rid:
@@ -451,11 +456,6 @@ def gen_inline_op(rng, sh):
 
 
 SEND_FAILURES = ("SerializationError", "PayloadExceededError", "TransportLost")
-# subscribe() / register() / _unsubscribe() / _unregister() have no try/except around transport.send() (call() and
-# publish() have): the record of a call that raised stays in the table.  Found in round 5, reported to the integrator.
-AWAITING_TRIAGE = {f"send-failed/{k}/later-reply-accepted": f"send-failed-{k}-record-left"
-                   for k in ("subscribe", "register", "unsubscribe", "unregister")}
-
 
 def gen_failsend_ops(rng, sh):
     """an API call (each of the six request kinds) whose request message the transport refuses in one of its three ways,
@@ -490,12 +490,23 @@ def join_prefix(fw, sid=1234):
     return [["open"], ["turn"], ["welcome", sid], ["turn"], ["turn"]] if fw == "aio" else [["open"], ["welcome", sid]]
 
 
+def next_life(fw, sid):
+    """the transport is lost, the same session object is given a new one and joins again"""
+    if fw == "aio":
+        return [["lost", False], ["turn"], ["turn"], ["turn"]] + join_prefix(fw, sid)
+    return [["lost", False]] + join_prefix(fw, sid)
+
+
 def gen_c04_history(rng, fw, nops):
     sh = Shadow()
     ops = join_prefix(fw, rng.choice([1234, 1, 9007199254740992]))
     for _ in range(nops):
         r = rng.random()
-        if fw == "aio" and r < 0.22:
+        if rng.random() < 0.025 and sh.next_id:
+            # request ids are in session scope: the next life of the object starts from 1 again
+            ops += next_life(fw, rng.choice([1235, 2, 9007199254740991]))
+            sh.rejoin()
+        elif fw == "aio" and r < 0.22:
             ops.append(["turn"])
         elif r < 0.12 + (0.22 if fw == "aio" else 0):
             ops.append(gen_inline_op(rng, sh))
@@ -649,7 +660,8 @@ def expand_inline(ops, trace, v):
 
 def oracle_c04(fw, cfg, ops, res):
     """returns list of (key, text).  Checks, on the implementation log only:
-       ids sequential from 1 and within 1..2^53; one request message per API call with the given URI / args / options;
+       ids sequential from 1 within every session (every life of the object: HELLO restarts them) and within 1..2^53;
+       one request message per API call with the given URI / args / options;
        every future completes at most once; a completion that follows the reply bearing the request's (type, id)
        carries that reply's content (or the error it carries); a future never completes without such a reply unless
        the session ends / the user cancels; progressive results reach only their own call and do not complete it;
@@ -664,17 +676,33 @@ def oracle_c04(fw, cfg, ops, res):
     reqs = {}            # (kind, id) -> {"j":..., "details":..., "open": bool, "reply": op or None}
     by_j = {}
     failed = {}          # (kind, id) of requests whose send() raised -> op index
+    lives = 0            # HELLOs seen so far
+    stale = {}           # (kind, id) -> request of an earlier life whose future never completed
     window = []          # asyncio: ops since the last turn (user callbacks surface in the next loop iteration)
     joined = False
     ended = False
     for i, (op, evs) in enumerate(zip(ops, trace)):
         name = op[0]
         sent = [e[1] for e in evs if e[0] in ("sent", "sendfailed", "dropped") and e[1][0] in REQUEST_MSGS]
-        # ---- ids ----
+        # ---- ids: session scope -- from 1 in every life (join() = HELLO starts a new session), sequential within it ----
+        if any(e[0] in ("sent", "sendfailed", "dropped") and e[1][0] == "hello" for e in evs):
+            if lives:
+                nreq, failed = 0, {}
+                # records that survived the previous life (no default onDisconnect sweep): join() keeps the tables
+                stale = {k: r for k, r in reqs.items() if r.get("j") is not None and r["j"] not in completed}
+                for r in reqs.values(): r["open"] = False
+                joined = ended = False
+            lives += 1
         for m in sent:
             nreq += 1
             if m[1] != nreq or not (1 <= m[1] <= 2 ** 53):
-                v.append(("ids/not-sequential", f"request #{nreq} carries id {m[1]} at op {i}"))
+                if lives > 1 and nreq == 1:
+                    v.append(("request-id/not-from-1-in-next-life",
+                              f"the first request of life {lives} of the session object carries id {m[1]} at op {i} "
+                              f"(request ids are in session scope: every join() starts from 1)"))
+                    nreq = m[1]
+                else:
+                    v.append(("ids/not-sequential", f"request #{nreq} of the session carries id {m[1]} at op {i}"))
         # ---- one message per API call, faithful content ----
         own = evs[:next((i for i, e in enumerate(evs) if e[0] == "reenter"), len(evs))]
         if name in ("call", "publish", "subscribe", "register"):
@@ -744,6 +772,7 @@ def oracle_c04(fw, cfg, ops, res):
                           f"{e[1]} escaped the entry point at op {i}: {op}"))
         # ---- replies: which request do they belong to ----
         unknown_reply = False
+        stale_j = None
         if (name in REPLY_OF or name == "error") and joined and not ended:
             if name == "error":
                 kinds = [k for k, c in KIND_CODE.items() if c == op[1]]
@@ -754,15 +783,22 @@ def oracle_c04(fw, cfg, ops, res):
                 pass        # router-initiated revocation, not a reply
             elif not (key in reqs and reqs[key]["open"]):
                 unknown_reply = True
+                stale_j = None
                 if not any(e[0] == "raised" and e[1] == "ProtocolError" for e in evs):
-                    if key in failed:
+                    if key in stale and stale[key]["j"] not in completed:
+                        stale_j = stale[key]["j"]
+                        v.append(("stale-record/reply-of-next-session-matched-to-request-of-previous-life",
+                                  f"{op} of life {lives} (op {i}) matches no request of this session, but is accepted: the "
+                                  f"record of {key} issued in an earlier life of the object (future {stale_j}) is still in "
+                                  f"the table (join() resets the request ids but keeps the request tables)"))
+                    elif key in failed:
                         v.append((f"send-failed/{key[0]}/later-reply-accepted",
                                   f"{key[0]}() at op {failed[key]} raised because send() failed; the router message {op} "
                                   f"bearing the id it consumed is accepted without ProtocolError (op {i}): the request "
                                   f"record was left in the table"))
                     else:
                         v.append((f"{name}/unknown-not-violation", f"{op} matches no pending request but no ProtocolError (op {i})"))
-                if any(e[0] == "completed" for e in evs):
+                if any(e[0] == "completed" and e[1] != stale_j for e in evs):
                     v.append((f"{name}/unknown-completes", f"{op} matches no pending request but completed a future (op {i})"))
             elif not (name == "result" and op[2]):
                 reqs[key]["open"] = False
@@ -780,6 +816,8 @@ def oracle_c04(fw, cfg, ops, res):
                 v.append(("future/completed-twice", f"future {j} completed again at op {i} ({op})"))
                 continue
             completed[j] = (i, e[2])
+            if unknown_reply and j == stale_j:
+                continue             # reported above
             key = by_j.get(j)
             rq = reqs.get(key)
             causes = [op] if fw == "tx" else list(window)
@@ -840,7 +878,8 @@ def run(ck):
         "transport.send() for all six request kinds (loopback router link), transport.send() raising each of "
         "SerializationError / PayloadExceededError / TransportLost inside each of the six request kinds followed by a "
         "router message (success, ERROR, progressive RESULT) bearing the id that call consumed, callbacks that re-enter the "
-        "API, asyncio loop turns at random points; run on the "
+        "API, a second / third life of the same session object (transport lost, new transport, join again: request ids "
+        "start from 1 again), asyncio loop turns at random points; run on the "
         "real ApplicationSession under Twisted and asyncio and on the Gallina model (coqc, vm_compute); compared: per op "
         "the exact sequence of messages handed to the transport, future completions with content, on_progress calls, "
         "exceptions; non-trivial = at least one request sent and one router message processed; distinct = distinct "
@@ -894,7 +933,6 @@ def run(ck):
             ck.bump("oracle:" + key)
             if key not in found or len(it[2]) < len(found[key][1][2]):
                 found[key] = (text, it)
-    untriaged = split_untriaged(ck, found, AWAITING_TRIAGE)
     report_findings(ck, found, oracle_c04, lambda fw: len(join_prefix(fw)))
     # ---- model comparison ----
     bad = model_compare(ck, "c04", items)
@@ -903,7 +941,7 @@ def run(ck):
     reported = 0
     for i in bad:
         fw, cfg, ops, res = items[i]
-        if any(k not in untriaged for k, _ in oracle_c04(fw, cfg, ops, res)):
+        if oracle_c04(fw, cfg, ops, res):
             continue                  # already reported with a concrete failing input
         if reported >= 3:
             break
@@ -925,24 +963,6 @@ def run(ck):
         ck.violation("obligation/" + broken[0], f"proof obligation(s) no longer check: {broken[:12]}",
                      {"broken_obligations": broken, "note": "see coverage.broken_obligations in the evidence file for the "
                       "coqc error; the history sweep of this run is the search for a failing input"}, found_input=False)
-
-
-def split_untriaged(ck, found, awaiting):
-    """genuine findings on the unchanged tree that were reported to the integrator and are not triaged yet (no entry of
-    any status in known_findings.json for the key): printed with their replay, taken out of `found`, not counted as
-    violations of this run.  As soon as known_findings.json has an entry for the key (known / fixed) it goes through
-    ck.violation like everything else.  awaiting: oracle key -> replay file stem (corpus/<pid>/<stem>-<fw>.json)"""
-    untriaged = set()
-    for key in sorted(found):
-        fw0 = found[key][1][0]
-        full = f"{fw0}/{key}"
-        if key in awaiting and not any(k.get("property") == ck.pid and k.get("key") == full for k in ck.known):
-            text, it = found.pop(key)
-            print(f"UNTRIAGED-FINDING: property={ck.pid} key={full} {' '.join(text.split())[:300]} "
-                  f"replay: corpus/{ck.pid}/{awaiting[key]}-{fw0}.json", flush=True)
-            ck.bump("untriaged:" + full)
-            untriaged.add(key)
-    return untriaged
 
 
 def report_findings(ck, found, oracle, keep_prefix_of):
